@@ -216,6 +216,11 @@ fn check_bfs_pred<D: Order + OutNeighbors + Clone>(
     let lazy = || sources.iter().copied().filter(|_| true);
     let items_l: Vec<(Option<usize>, usize)> = BfsPred::new(g, lazy()).collect();
     ensure!(items_l == items, "BfsPred<{name}>: sources passed through `filter` give {items_l:?}, passed directly {items:?}");
+    {
+        let q = gen::shared_queue(sources);
+        let items_s: Vec<(Option<usize>, usize)> = BfsPred::new(g, gen::shared_cursor(&q)).collect();
+        ensure!(items_s == items, "BfsPred<{name}>: sources from a draining iterator whose clones share their cursor give {items_s:?}, passed directly {items:?}");
+    }
     let h = gen::hint_pick(sources.len(), n + m.size());
     let items_h: Vec<(Option<usize>, usize)> = BfsPred::new(g, gen::hinted(sources.to_vec(), h)).collect();
     ensure!(items_h == items, "BfsPred<{name}>: sources from an iterator with size_hint {h:?} give {items_h:?}, passed directly {items:?}");
@@ -452,6 +457,11 @@ impl Prop for C05 {
         check_tree("DijkstraPred items", &from_items, n, s, dist, &w)?;
         let items_l: Vec<(Option<usize>, usize)> = DijkstraPred::new(&g, s.iter().copied().filter(|_| true)).collect();
         ensure!(items_l == items, "DijkstraPred: sources passed through `filter` give {items_l:?}, passed directly {items:?}");
+        {
+            let q = gen::shared_queue(s);
+            let items_s: Vec<(Option<usize>, usize)> = DijkstraPred::new(&g, gen::shared_cursor(&q)).collect();
+            ensure!(items_s == items, "DijkstraPred: sources from a draining iterator whose clones share their cursor give {items_s:?}, passed directly {items:?}");
+        }
         let h = gen::hint_pick(s.len(), n + c.g.arcs.len());
         let items_h: Vec<(Option<usize>, usize)> = DijkstraPred::new(&g, gen::hinted(s.clone(), h)).collect();
         ensure!(items_h == items, "DijkstraPred: sources from an iterator with size_hint {h:?} give {items_h:?}, passed directly {items:?}");
